@@ -93,9 +93,10 @@ def events_of(text: str, config_kwargs: dict):
 LEAF_NODES = {"literal_block", "literal", "math", "math_block", "raw", "image", "comment", "target", "doctest_block"}
 
 
-def project(doc):
+def project(doc, messages: bool = False):
     """doctree -> (nodes [{k,t,a}], par [parent index, 0 = document]) in document order;
-    system messages are skipped, adjacent Text siblings are read as one run"""
+    system messages are skipped (messages=True: kept as leaves, for the well-formedness view),
+    adjacent Text siblings are read as one run"""
     from docutils import nodes
     out, par = [], []
 
@@ -129,6 +130,11 @@ def project(doc):
     def walk(n, p):
         last_text = None
         for ch in n.children:
+            if messages and isinstance(ch, nodes.system_message):
+                out.append({"k": "system_message", "t": "", "a": ""})
+                par.append(p)
+                last_text = None
+                continue
             if isinstance(ch, (nodes.system_message, nodes.pending, nodes.meta)):
                 continue            # messages; html_meta placeholders (configuration, not tokens)
             if isinstance(ch, nodes.Text):
